@@ -18,7 +18,7 @@ from vcheck.hcommon import mkdt, pin, pinned, stub_utc, tier
 
 DAY = 86400
 D0 = 10  # the component starts on 10 January
-E_MAX = tier(DAY // 2, 2 * DAY)
+E_MAX = tier(DAY // 2, DAY)
 
 
 def _abs(x, tz):
